@@ -179,8 +179,7 @@ def evaluate(r, trains, edges, name, kw, ivals, be, rank=()):
 
 
 def check_state(r, k, masks, task):
-    trains = [lattice.times(m) for m in masks]
-    edges = lattice.edges(k)
+    trains, edges = pairs.trains_edges(k, masks)
     ns = pairs.nspikes(masks)
     ivals = some_intervals(k)
     for ci, (name, kw) in enumerate(task["conf"]):
